@@ -15,10 +15,10 @@ CHECKS = {
  "C04": ("exploration", "independent scope/binder validator + interpreter safety monitors + poison propagation + compile attempt on every accepted primitive application", "ir-sanitizer", "3/C04",
          "Held on K observed primitive applications: result well-scoped, event-free where the input was, no observable poison, compiles or documented rejection.",
          "trusts vf/irutil.validate and vf/refinterp.py monitors"),
- "C06": ("exploration", "forward every statement/gap/expression/block cursor across every accepted operation and 2..6-step chains; object-identity oracle; implicit-vs-explicit forwarding differential", "hook-oracle", "3/C06",
+ "C06": ("exploration", "forward every statement/gap/expression/block cursor across every accepted operation and 2..6-step chains; object-identity oracle; implicit-vs-explicit forwarding differential; repository tests as a second workload (W2): every primitive application they make gets the same oracle", "hook-oracle", "3/C06",
          "Held on K forwardings: invalid, or resolves and denotes the identity-shared statement.",
          "object identity of shared sub-trees as ground truth; rebuilt nodes only checked for no-dangling"),
- "C07": ("fault_enumeration", "structural fingerprints of all registered procedures + cursor re-resolution after every call (accepted, rejected, and with exceptions injected at sampled lines via sys.monitoring); same-call rerun differential", "fingerprint+failpoints", "3/C07",
+ "C07": ("fault_enumeration", "structural fingerprints of all registered procedures + cursor re-resolution after every call (accepted, rejected, and with exceptions injected at sampled lines via sys.monitoring); same-call rerun differential, late re-runs of earlier calls and digests of the C generated for existing procedures (state carried over between calls); derived gap/block cursors re-checked; repository tests as a second workload (W2) with purity observers around every primitive call", "fingerprint+failpoints", "3/C07",
          "Held on K calls incl. F injected faults: no registered procedure, cursor or printed text changed.",
          "mutation is visible through attrs fields; fault points are statement starts in exo/rewrite, internal_cursors, API_scheduling"),
  "C08": ("exploration", "generated C run under ASan+UBSan+LeakSanitizer with exact-size argument blocks, stride-padding canaries and mprotect()ed const arguments on interpreter-clean inputs", "sanitizers", "3/C08",
@@ -30,16 +30,16 @@ CHECKS = {
  "C11": ("exploration", "history recorded at the proc_eqv module boundary checked against a reference per-field closure model; synthetic histories (exhaustive small sub-space on the thorough tier) and real API scripts", "history+model", "3/C11",
          "Held on K histories / Q compared query answers.",
          "per-field reading of the closure (DESIGN 3/C11); module globals are the only state"),
- "C13": ("exploration", "icontract postconditions on IndexRange operators and wrappers on index_range_analysis/constant_bound/check_expr_bound(s)/infer_range/bounds_inference judged by brute-force evaluation; in-situ decisions during compile/simplify/fold", "contracts+bruteforce", "3/C13",
+ "C13": ("exploration", "icontract postconditions on IndexRange operators and wrappers on index_range_analysis/constant_bound/check_expr_bound(s)/infer_range/bounds_inference judged by brute-force evaluation; in-situ decisions during compile/simplify/fold, also in process histories where a derived procedure with a stronger precondition was analysed first", "contracts+bruteforce", "3/C13",
          "Held on K operator evaluations and (expression, environment) pairs; exhaustive 5x5 box on the thorough tier.",
          "python floor // and % as ground truth; sampled windows of unbounded ranges"),
- "C16": ("exploration", "real find/find_all/#n and cursor navigation compared with an independent reference matcher and navigation laws at every cursor position of generated procedures", "reference-matcher", "3/C16",
+ "C16": ("exploration", "real find/find_all/#n and cursor navigation compared with an independent reference matcher and navigation laws at every cursor position of generated procedures; literal vs unquoted ({python variable}) spelling of every pattern with a numeric literal", "reference-matcher", "3/C16",
          "Held on K (pattern, program) pairs and L navigation-law evaluations; only 'sure' oracle answers decide.",
          "pattern structure generated together with the pattern text; undocumented positions are not judged"),
- "C17": ("exploration", "invariant hooked on PrintEnv.get_name (two live symbols never share a printed name) + print/re-parse/re-print/execute round trip of scheduled procedures with hostile spellings", "hook+roundtrip", "3/C17",
+ "C17": ("exploration", "invariant hooked on PrintEnv.get_name (two live symbols never share a printed name) + print/re-parse/re-print/execute round trip of scheduled procedures with hostile spellings; the name invariant also on everything the repository tests print (W2)", "hook+roundtrip", "3/C17",
          "Held on K printed procedures (R re-parsed and executed).",
          "procedures the surface syntax cannot express are skipped and counted"),
- "C18": ("exploration", "recorded sessions replayed in fresh interpreter processes differing in PYTHONHASHSEED, prior symbol/procedure counts and unrelated definitions; step outcomes, printed procedures, .c and .h compared byte-for-byte", "process-differential", "3/C18",
+ "C18": ("exploration", "recorded sessions replayed in fresh interpreter processes differing in PYTHONHASHSEED, prior symbol/procedure counts (incl. the symbol counter passing a power of ten between two steps) and unrelated definitions; step outcomes, printed procedures, .c and .h compared byte-for-byte", "process-differential", "3/C18",
          "Held on K sessions x P processes.",
          "locators (paths) denote the same nodes when the IR is the same"),
 }
